@@ -168,6 +168,22 @@ Section Top.
   Lemma R_inputs u i v su : R u su -> R (set_verrs (set_input u i) v) su.
   Proof. intros [H1 H2 H3 H4 H5 H6 H7 H8]. constructor; assumption. Qed.
 
+  Lemma Rq_inputs u i v su : Rq u su -> Rq (set_verrs (set_input u i) v) su.
+  Proof.
+    unfold Rq. intros H.
+    change (set_query (set_verrs (set_input u i) v) (option_map encode_runes (SU.u_query su)))
+      with (set_verrs (set_input (set_query u (option_map encode_runes (SU.u_query su))) i) v).
+    apply R_inputs. exact H.
+  Qed.
+
+  Lemma Rf_inputs u i v su : Rf u su -> Rf (set_verrs (set_input u i) v) su.
+  Proof.
+    unfold Rf. intros H.
+    change (set_fragment (set_verrs (set_input u i) v) (option_map encode_runes (SU.u_fragment su)))
+      with (set_verrs (set_input (set_fragment u (option_map encode_runes (SU.u_fragment su))) i) v).
+    apply R_inputs. exact H.
+  Qed.
+
   Lemma st_rel_inputs ov sbase st ptr buf u i v sm :
     st_rel ov sbase st ptr buf u sm -> st_rel ov sbase st ptr buf (set_verrs (set_input u i) v) sm.
   Proof.
@@ -176,15 +192,14 @@ Section Top.
       | H : exists _, _ |- _ => let x := fresh "x" in destruct H as [x H]
       | H : _ /\ _ |- _ => let H1 := fresh "H" in destruct H as [H1 H]
       end;
-      try (eexists); repeat split; try eassumption; try (apply R_inputs; assumption).
-    - (* query *) unfold Rq in *.
-      change (set_query (set_verrs (set_input u i) v) (option_map encode_runes (SU.u_query (SB.m_url sm))))
-        with (set_verrs (set_input (set_query u (option_map encode_runes (SU.u_query (SB.m_url sm)))) i) v).
-      apply R_inputs. assumption.
-    - (* fragment *) unfold Rf in *.
-      change (set_fragment (set_verrs (set_input u i) v) (option_map encode_runes (SU.u_fragment (SB.m_url sm))))
-        with (set_verrs (set_input (set_fragment u (option_map encode_runes (SU.u_fragment (SB.m_url sm)))) i) v).
-      apply R_inputs. assumption.
+      repeat match goal with
+      | |- exists _, _ => eexists
+      | |- _ /\ _ => split
+      | |- R _ _ => apply R_inputs; eassumption
+      | |- Rf _ _ => apply Rf_inputs; eassumption
+      | |- Rq _ _ => apply Rq_inputs; eassumption
+      | |- _ => eassumption
+      end.
   Qed.
 
   Lemma set_verrs_same u : set_verrs u (u_verrs u) = u.
